@@ -302,9 +302,12 @@ func (g *sgen) stmt(e env, depth int) *S {
 		body := g.stmts_(e1.clone(), depth-1, 1+r.Intn(2))
 		return &S{k: "for", c: []*S{init, cond, post, body}}
 	case k < 87: // range
-		x := g.exprUse(e, 40)
-		e1 := e.clone()
 		s := &S{k: "range", d: r.Chance(75)}
+		var x *S = sk()
+		if s.d {
+			x = g.exprUse(e, 40)
+		}
+		e1 := e.clone()
 		if s.d {
 			n := g.shadowName()
 			if r.Bool() {
@@ -315,8 +318,6 @@ func (g *sgen) stmt(e env, depth int) *S {
 			}
 			e1.set(n, kVarT)
 			s.ids = []string{g.id()}
-		} else {
-			x = sk()
 		}
 		body := g.stmts_(e1, depth-1, 1+r.Intn(2))
 		s.c = []*S{x, body}
